@@ -353,3 +353,50 @@ Definition check_jsonleaf (fs : list field) : verdict :=
 Definition check_292 (fs : list field) : verdict := check_jsonleaf fs.
 Definition check_391 (fs : list field) : verdict := check_jsonleaf fs.
 Definition check_1891 (fs : list field) : verdict := check_jsonleaf fs.
+
+(* ------------------------------------------------------------------ thrift/binary.go WriteEmpty: the zero value of an absent field *)
+From DG Require Gen_thriftempty Gen_thriftends ThriftCut.
+
+(* the write calls of WriteEmpty as bytes: the scalar primitives as in write_eff_bytes; WriteListBegin / WriteMapBegin / WriteStructEnd /
+   WriteBool are themselves call sequences over WriteByte / WriteI32 (gen/Gen_thriftbin.v, gen/Gen_thriftends.v), see GenThriftemptyProofs *)
+Definition empty_eff_bytes (e : Z * list Z) : list Z :=
+  let c := fst e in
+  match snd e with
+  | [] => if c =? Gen_thriftempty.Eff_WriteString then ThriftWire.enc_int 4 0
+          else if c =? Gen_thriftempty.Eff_WriteStructEnd then [0] else []
+  | [v] => if (c =? Gen_thriftempty.Eff_WriteBool) || (c =? Gen_thriftempty.Eff_WriteByte) then ThriftWire.enc_int 1 v
+           else if c =? Gen_thriftempty.Eff_WriteI16 then ThriftWire.enc_int 2 v
+           else if c =? Gen_thriftempty.Eff_WriteI32 then ThriftWire.enc_int 4 v
+           else if (c =? Gen_thriftempty.Eff_WriteI64) || (c =? Gen_thriftempty.Eff_WriteDouble) then ThriftWire.enc_int 8 v else []
+  | [t; n] => if c =? Gen_thriftempty.Eff_WriteListBegin then ThriftWire.enc_int 1 t ++ ThriftWire.enc_int 4 n else []
+  | [k; v; n] => if c =? Gen_thriftempty.Eff_WriteMapBegin then ThriftWire.enc_int 1 k ++ ThriftWire.enc_int 1 v ++ ThriftWire.enc_int 4 n else []
+  | _ => []
+  end.
+Definition empty_bytes (eff : list (Z * list Z)) : list Z := flat_map empty_eff_bytes eff.
+
+Definition empty_desc (typ key elem : Z) : Gen_thriftempty.BinaryProtocol_WriteEmpty_desc :=
+  {| Gen_thriftempty.BinaryProtocol_WriteEmpty_desc_Elem_Type := elem; Gen_thriftempty.BinaryProtocol_WriteEmpty_desc_Key_Type := key;
+     Gen_thriftempty.BinaryProtocol_WriteEmpty_desc_Type := typ |}.
+Definition gen_write_empty (typ key elem : Z) : Z * list (Z * list Z) :=
+  Gen_thriftempty.BinaryProtocol_WriteEmpty (empty_desc typ key elem) 0 0 0 0 0 0 0 0 0 0.
+
+(* the cutting model's type for a type byte with element / key type bytes (nested types only matter through their code) *)
+Definition ty_of_codes (typ key elem : Z) : ThriftCut.ty :=
+  if typ =? 12 then ThriftCut.TStruct 0 else if typ =? 15 then ThriftCut.TList (ThriftCut.TScalar elem)
+  else if typ =? 14 then ThriftCut.TSet (ThriftCut.TScalar elem)
+  else if typ =? 13 then ThriftCut.TMap (ThriftCut.TScalar key) (ThriftCut.TScalar elem) else ThriftCut.TScalar typ.
+
+(* 1694 / 1194 fields: type, key type, element type, bytes written, error (0 nil) *)
+Definition check_write_empty (fs : list field) : verdict :=
+  match fs with
+  | [FZ typ; FZ key; FZ elem; FB outb; FZ errd] =>
+    let '(e, eff) := gen_write_empty typ key elem in
+    vand (expect 1 (Bool.eqb (e =? 0) (errd =? 0) && bytes_eqb (empty_bytes eff) outb) [FZ e; FB (empty_bytes eff)])
+         match ThriftCut.zero_of (ty_of_codes typ key elem) with
+         | Some z => expect 2 ((errd =? 0) && bytes_eqb (ThriftWire.encode z) outb) [FB (ThriftWire.encode z)]
+         | None => expect 3 ((errd =? 1) && bytes_eqb outb []) []
+         end
+  | _ => VBad 99 []
+  end.
+Definition check_1694 (fs : list field) : verdict := check_write_empty fs.
+Definition check_1194 (fs : list field) : verdict := check_write_empty fs.
